@@ -64,6 +64,25 @@ def strategy(draw):
             "straddle": draw(st.lists(st.booleans(), min_size=12, max_size=12)), "full_weight": draw(st.booleans())}
 
 
+def _cutoff_applies(case, s):
+    return (case["palette"] and case["seed"] % 4 == 3 and case["null_frac"] == 0.0 and s["n"] >= 9
+            and s["level"] in (-1.0, 0.0, 1.0) and s["offset"] in (0.0, -0.25))
+
+
+def _on_cutoff(case, s, rng):
+    """Bins built so that one of them lies exactly on the 9-MAD cut-off of the biweight midvariance (and one on the 6-MAD
+    cut-off of the biweight location): binary fractions around a binary segment level - pairs at +-u (so MAD = u and the
+    location stays on the level exactly), one bin each at +6u, +9u, -20u, -30u. The definition keeps |u_i| < 1 only
+    (seeded change C17q counted the bin on the cut-off among the inliers)."""
+    if not _cutoff_applies(case, s):
+        return None
+    u = [0.125, 0.25, 0.0625][int(rng.integers(0, 3))]
+    n = s["n"]
+    pairs = (n - 5) // 2
+    ks = [1.0, -1.0] * pairs + [6.0, 9.0, -20.0, -30.0] + [0.0] * (n - 2 * pairs - 4)
+    return [s["level"] + u * ks[i] for i in rng.permutation(n)]
+
+
 def build(case):
     rng = np.random.default_rng(case["seed"])
     bins, segs = [], []
@@ -72,10 +91,13 @@ def build(case):
         for s in c["segs"]:
             start = pos
             vals = []
-            for _ in range(s["n"]):
+            planted = _on_cutoff(case, s, rng)
+            for k_ in range(s["n"]):
                 ln = int(rng.integers(20, 300))
                 null = rng.random() < case["null_frac"]
-                if case["palette"]:
+                if planted is not None:
+                    v = planted[k_]
+                elif case["palette"]:
                     v = s["level"] + float(rng.integers(-2, 3)) / 8.0
                 else:
                     v = s["level"] + float(rng.normal(0, case["noise"]))
@@ -93,7 +115,8 @@ def build(case):
             end = pos if s["n"] == 0 else bins[-1]["end"]
             good = [v for v in vals if v > -15] or [0.0]
             segs.append({"chromosome": c["name"], "start": start, "end": max(end, start + 1), "gene": "-",
-                         "log2": float(np.mean(good)) + s["offset"], "probes": s["n"], "weight": 1.0})
+                         "log2": (float(np.mean(good)) if planted is None else s["level"]) + s["offset"],
+                         "probes": s["n"], "weight": 1.0})
             pos = max(pos, segs[-1]["end"]) + int(rng.integers(0, 2)) * 100
     # move some boundaries into the middle of the following bin, so that a bin straddles two segments
     flags = case.get("straddle") or [False]
@@ -129,6 +152,8 @@ def classify(case):
     if max(ns) > 100:
         labs.append("big-segment")
     labs += ["stat:" + s for s in case["loc"] + case["spread"] + case["interval"]]
+    if "bivar" in case["spread"] and any(_cutoff_applies(case, s) for c in case["chroms"] for s in c["segs"]):
+        labs.append("bivar:bin-on-the-9-MAD-cut-off")
     if any(case.get("straddle", [])):
         labs.append("straddling-boundaries")
     if case["skip_low"]:
